@@ -126,7 +126,7 @@ ADDENDA = {
  'C14': ' (Shares the extended grammar and decorations of C03.) Third round: see C03; the all-placeholders case with empty lines uses block comments at inline placeholders.',
  'C15': ' (Shares the extended grammar and decorations of C03; decorated programs are also run with return_statement_parenthesis=false.) Third round: see C03; placeholders around the arguments of a call inside an expression are left out (not in docs/parser.md\'s list).',
  'C17': ' Extended after seeding: sub-field values with separators, values starting / ending with a line break, keys that differ in one punctuation character, cross-object histories (an operation on one object must not move another object\'s reads). Third round: set H += V histories (append law); sub-field keys that differ in letter case only. Fourth round: the objects in the other scopes that may write them.',
- 'C18': ' Extended after seeding: channel receive / send / close are owned by the scheduler (instrumenter rewrite, happens-before through channels); a progress backstop abandons an execution blocked in anything else; quick tier caps a scenario at 6000 executions (reported as not exhaustive); plugins on a compound statement with an ignored nested statement. Third round: a response whose body carries an ESI include next to every other request kind; a plugin that is not installed (first / middle / last); a per-worker soft deadline (15 min quick, 50 min thorough: scenarios left are reported as a cap). Fourth round: a FASTLYPURGE request next to every other request kind.',
+ 'C18': ' Extended after seeding: channel receive / send / close are owned by the scheduler (instrumenter rewrite, happens-before through channels); a progress backstop abandons an execution blocked in anything else; the quick tier caps a scenario at 6000 executions, the thorough tier at 60000 (reported as not exhaustive); plugins on a compound statement with an ignored nested statement. Third round: a response whose body carries an ESI include next to every other request kind; a plugin that is not installed (first / middle / last); a per-worker soft deadline (15 min quick, 25 min thorough: scenarios left are reported as a cap). Fourth round: a FASTLYPURGE request next to every other request kind.',
  'C19': ' Extended after seeding: expression shapes x 8 contexts incl. if() with 2-3 composite operands; programs of 4-7 kB across the decoder\'s read-buffer boundary at every alignment.',
  'C20': ' Extended after seeding: 4 Terraform module layouts (items / service in child and grandchild modules); backend names that differ only in the length of a run of non-identifier characters, with a distinctness oracle. Third round: the real remote.FastlyApiFetcher behind a fake Fastly API built from the case; Terraform plans with two services generated one after the other on one fetcher. Fourth round: comment and statement delimiters (*/ /* // CR TAB) as field content.',
  'C05': ' Extended after seeding (third round): signed literals, signed locals and signed predefined variables as operands. Fourth round: disallowed reads repeated behind a legal use in another subroutine.',
